@@ -11,6 +11,7 @@
      long cffi_verif_mmap_fail_at           fail the call whose ordinal equals this (-1 never)
      long cffi_verif_mmap_fail_n            ... and the next n-1 calls
      dl log: cffi_verif_dl_n, cffi_verif_dl_log[]   (kind, handle, symbol) per dlsym/dlclose/dlopen
+     void cffi_verif_note_open(void *h)   the harness opened handle h itself (open counts per handle)
      fault: cffi_verif_dlclose_fail = n   the next n dlclose() calls close the handle but return -1
      void cffi_verif_arm_gate(sem_t *arrived, sem_t *gate)   one-shot gate before this thread's next GIL acquisition
 */
@@ -95,25 +96,60 @@ static void verif_dl_record(int kind, void *h, const char *s)
     }
     cffi_verif_dl_n++;
 }
+/* open counts per handle, as far as the simulation knows them (opens made by the backend, and opens the
+   harness announces with cffi_verif_note_open).  A handle whose count has dropped to zero is never given to
+   the real dlsym()/dlclose() again: the call is logged (the check reports it) and refused, so that a broken
+   tree shows up as a reproducible violation instead of undefined behaviour inside the dynamic loader. */
+#define VERIF_DL_HANDLES 256
+static struct { void *h; long n; } verif_dl_tab[VERIF_DL_HANDLES];
+static int verif_dl_ntab = 0;
+static long *verif_dl_count(void *h, int create)
+{
+    int i;
+    for (i = 0; i < verif_dl_ntab; i++)
+        if (verif_dl_tab[i].h == h) return &verif_dl_tab[i].n;
+    if (!create || verif_dl_ntab >= VERIF_DL_HANDLES) return NULL;
+    verif_dl_tab[verif_dl_ntab].h = h; verif_dl_tab[verif_dl_ntab].n = 0;
+    return &verif_dl_tab[verif_dl_ntab++].n;
+}
+void cffi_verif_note_open(void *h)
+{
+    long *c = (h != NULL) ? verif_dl_count(h, 1) : NULL;
+    if (c) (*c)++;
+}
 static void *verif_dlopen(const char *f, int flags)
 {
     void *h = dlopen(f, flags);
     verif_dl_record(1, h, f);
+    cffi_verif_note_open(h);
     return h;
 }
+static int verif_dlclose_failed_msg = 0;
 static void *verif_dlsym(void *h, const char *s)
 {
+    long *c = (h != NULL) ? verif_dl_count(h, 0) : NULL;
     verif_dl_record(2, h, s);
+    if (c != NULL && *c <= 0) {
+        verif_dlclose_failed_msg = 2;
+        return NULL;
+    }
     return dlsym(h, s);
 }
 /* fault: the next cffi_verif_dlclose_fail calls of dlclose() do close the handle but report a failure
    (as the dynamic loader does when part of the teardown went wrong) */
 long cffi_verif_dlclose_fail = 0;
-static int verif_dlclose_failed_msg = 0;
 static int verif_dlclose(void *h)
 {
     int r;
+    long *c = (h != NULL) ? verif_dl_count(h, 0) : NULL;
     verif_dl_record(3, h, NULL);
+    if (c != NULL) {
+        if (*c <= 0) {
+            verif_dlclose_failed_msg = 2;
+            return -1;
+        }
+        (*c)--;
+    }
     r = dlclose(h);
     if (cffi_verif_dlclose_fail > 0) {
         cffi_verif_dlclose_fail--;
@@ -156,8 +192,10 @@ static PyGILState_STATE verif_PyGILState_Ensure(void) { verif_gate(); return PyG
 static char *verif_dlerror(void)
 {
     if (verif_dlclose_failed_msg) {
+        int k = verif_dlclose_failed_msg;
         verif_dlclose_failed_msg = 0;
-        return "injected failure: cannot finish unloading";
+        return k == 2 ? "refused by the simulation: this handle has been closed"
+                      : "injected failure: cannot finish unloading";
     }
     return dlerror();
 }
